@@ -21,6 +21,12 @@
 //!                             record_bufs; hdr = length of the header text; rejected = the partial lines
 //!                             the real record parser refuses, "<line hex>:<1|2>;.." (1 UnexpectedEof, 2
 //!                             InvalidData); cuts start where the whole header is delivered -> "H" | "<n>:<stop>"
+//!   csi | tbi | fai | crai  hex cuts     the UNCOMPRESSED payload of a CSI / tabix index, the text of a
+//!                             fai, the text inside a crai's gzip member: the first k bytes, wrapped
+//!                             in an intact container (BGZF / none / gzip), read by the real reader
+//!                             -> "Err" | "Ok:<canonical index>" (format in shared/c13_index.rs)
+//!   csiz | tbiz  hex table cuts          a CSI / tabix FILE (BGZF, the written file or the payload
+//!                             recompressed with block breaks anywhere), cut as a file -> the same
 //! `cuts` is `all` (every offset 0..=len) or a comma list.  These kinds also carry the L3 verdict.
 //!
 //! Implementation-only oracle:
@@ -50,6 +56,8 @@ use nv::{Case, CaseWriter, Obs, Outcome, Rng, hex};
 
 #[path = "../shared/c13_files.rs"]
 mod files;
+#[path = "../shared/c13_index.rs"]
+mod index;
 
 const WATCHDOG: Duration = Duration::from_secs(20);
 
@@ -1171,6 +1179,149 @@ fn run_gzi(c: &Case) -> Obs {
 }
 
 // ---------------------------------------------------------------------------------------------
+// CSI / tabix / fai / crai: every cut of the payload, and of the BGZF file
+
+fn split_items(s: &str) -> Vec<&str> {
+    if s == "_" { vec![] } else { s.split(';').collect() }
+}
+
+/// the L3 oracle for one cut of an index: `orig` = canonical text of the intact index
+fn check_idx_cut(kind: &str, k: usize, full: bool, mid_line: bool, got: &index::R, orig: &str) -> Result<(), Fail> {
+    let s = match got {
+        index::R::Panic(m) => return Err((format!("panic-{kind}"), format!("cut {k}: {m}"))),
+        index::R::Err => {
+            return if full { Err((format!("{kind}-intact-file-unreadable"), format!("cut {k}"))) } else { Ok(()) };
+        }
+        index::R::Ok(s) => s,
+    };
+    match kind {
+        "csi" | "tbi" => {
+            let (ob, oc) = orig.rsplit_once('~').unwrap();
+            let (b, c) = s.rsplit_once('~').unwrap();
+            if b != ob {
+                // class: tabix, no reference sequence, the names returned are a proper prefix of
+                // the written names and everything else is as written
+                if kind == "tbi" {
+                    let (oh, orefs) = ob.rsplit_once('~').unwrap();
+                    let (h, refs) = b.rsplit_once('~').unwrap();
+                    let of: Vec<&str> = oh.split(':').collect();
+                    let f: Vec<&str> = h.split(':').collect();
+                    if orefs == "_" && refs == "_" && of.len() == 7 && f.len() == 7 && of[..6] == f[..6] {
+                        let on: Vec<&str> = if of[6] == "_" { vec![] } else { of[6].split(',').collect() };
+                        let n: Vec<&str> = if f[6] == "_" { vec![] } else { f[6].split(',').collect() };
+                        if n.len() < on.len() && on[..n.len()] == n[..] {
+                            return Err(("tabix-truncated-names-accepted-no-refs".to_string(), format!("cut {k}: {} of {} names returned without error", n.len(), on.len())));
+                        }
+                    }
+                }
+                Err(("index-truncation-accepted".to_string(), format!("{kind} cut {k}: a different index is returned without error")))
+            } else if c != oc && c != "-" {
+                Err(("index-truncation-altered-count".to_string(), format!("{kind} cut {k}: unplaced count {c}, written {oc}")))
+            } else {
+                Ok(())
+            }
+        }
+        _ => {
+            let o = split_items(orig);
+            let g = split_items(s);
+            if g.len() <= o.len() && g[..] == o[..g.len()] {
+                return Ok(());
+            }
+            // the last record differs from the written one in its last field only, and the input
+            // ends inside a line
+            let last_field_only = !g.is_empty()
+                && g.len() <= o.len()
+                && g[..g.len() - 1] == o[..g.len() - 1]
+                && g[g.len() - 1].rsplit_once(':').map(|x| x.0) == o[g.len() - 1].rsplit_once(':').map(|x| x.0);
+            if mid_line && last_field_only {
+                if kind == "fai" {
+                    Err(("text-truncated-final-line-accepted-fai".to_string(), format!("cut {k}: last record {}, written {}", g[g.len() - 1], o[g.len() - 1])))
+                } else {
+                    // crai: this is the text INSIDE the gzip member; a cut of the crai file itself is a
+                    // gzip error (kind `file crai`), so the payload-level acceptance is not reachable
+                    // by truncating a written file
+                    Ok(())
+                }
+            } else {
+                Err(("index-truncation-accepted".to_string(), format!("{kind} cut {k}: the records returned are not a prefix of the written ones")))
+            }
+        }
+    }
+}
+
+/// kinds csi tbi fai crai: every cut of the payload
+fn run_idx(kind: &'static str, c: &Case) -> Obs {
+    let payload = Arc::new(c.b(0));
+    let cuts = parse_cuts(&c.args[1], payload.len());
+    let orig = match index::read_payload(kind, &payload) {
+        index::R::Ok(s) => Some(s),
+        _ => None,
+    };
+    let mut toks = Vec::new();
+    let mut fails = Vec::new();
+    let mut n_err = 0;
+    for (k, r) in sweep(&payload, &cuts, move |p| index::read_payload(kind, p)) {
+        let Some(r) = r else {
+            toks.push("Hang".to_string());
+            fails.push(hang(kind, k));
+            break;
+        };
+        toks.push(r.token());
+        n_err += matches!(r, index::R::Err) as usize;
+        match &orig {
+            Some(o) => {
+                let mid_line = k > 0 && k <= payload.len() && payload[k - 1] != b'\n';
+                if let Err(f) = check_idx_cut(kind, k, k >= payload.len(), mid_line, &r, o) {
+                    fails.push(f);
+                }
+            }
+            None => {
+                if let index::R::Panic(m) = &r {
+                    fails.push((format!("panic-{kind}"), format!("cut {k}: {m}")));
+                }
+            }
+        }
+    }
+    if orig.is_none() {
+        fails.push((format!("{kind}-intact-file-unreadable"), String::new()));
+    }
+    Obs { obs: toks.join(" "), verdict: "ok".into(), nontrivial: orig.is_some() && n_err > 0 }.with_verdict(first_fail(fails))
+}
+
+/// kinds csiz tbiz: every cut of the BGZF file
+fn run_idxz(kind: &'static str, c: &Case) -> Obs {
+    let file = Arc::new(c.b(0));
+    let cuts = parse_cuts(&c.args[2], file.len());
+    let orig = match index::read_file(kind, &file) {
+        index::R::Ok(s) => Some(s),
+        _ => None,
+    };
+    let mut toks = Vec::new();
+    let mut fails = Vec::new();
+    let mut n_err = 0;
+    for (k, r) in sweep(&file, &cuts, move |p| index::read_file(kind, p)) {
+        let Some(r) = r else {
+            toks.push("Hang".to_string());
+            fails.push(hang(kind, k));
+            break;
+        };
+        toks.push(r.token());
+        n_err += matches!(r, index::R::Err) as usize;
+        if let Some(o) = &orig {
+            if let Err(f) = check_idx_cut(kind, k, k >= file.len(), false, &r, o) {
+                fails.push(f);
+            }
+        } else if let index::R::Panic(m) = &r {
+            fails.push((format!("panic-{kind}"), format!("cut {k}: {m}")));
+        }
+    }
+    if orig.is_none() {
+        fails.push((format!("{kind}-intact-file-unreadable"), String::new()));
+    }
+    Obs { obs: toks.join(" "), verdict: "ok".into(), nontrivial: orig.is_some() && n_err > 4 }.with_verdict(first_fail(fails))
+}
+
+// ---------------------------------------------------------------------------------------------
 // implementation-only oracle over generated files of every format
 
 /// offsets at which a field group of a well-formed BAI starts
@@ -1492,6 +1643,12 @@ fn run(c: &Case) -> Obs {
         "cramc" => run_cramc(c),
         "gzi" => run_gzi(c),
         "textz" => run_textz(c),
+        "csi" => run_idx("csi", c),
+        "tbi" => run_idx("tbi", c),
+        "fai" => run_idx("fai", c),
+        "crai" => run_idx("crai", c),
+        "csiz" => run_idxz("csi", c),
+        "tbiz" => run_idxz("tbi", c),
         "file" => run_file(c),
         _ => Obs { obs: "-".into(), verdict: "skip".into(), nontrivial: false },
     }
@@ -1661,6 +1818,36 @@ fn generate(rng: &mut Rng, tier: &str, w: &mut CaseWriter) {
     for _ in 0..(8 * scale) {
         let file = files::gzi_file(rng);
         w.push("gzi", vec![hex(&file), "all".into()]);
+    }
+
+    // --- modelled: CSI / tabix: every cut of the uncompressed payload, and every cut of a BGZF
+    // file holding it (the written file, or the payload recompressed with arbitrary block breaks)
+    for i in 0..(5 * scale) {
+        for kind in ["csi", "tbi"] {
+            let file = match (kind, i % 5) {
+                ("csi", _) => files::csi_file(rng),
+                (_, 4) => files::tabix_file_no_refs(rng),
+                _ => files::tabix_file_small(rng),
+            };
+            let payload = index::inflate(&file);
+            let cuts = if payload.len() <= 4096 { "all".to_string() } else { fmt_cuts(&choose_cuts(rng, payload.len(), &[4, 8, payload.len() - 8], 150)) };
+            w.push(kind, vec![hex(&payload), cuts]);
+            let zf = if rng.chance(1, 2) {
+                file
+            } else {
+                let br = files::random_breaks(rng, payload.len(), 4);
+                files::bgzip(&payload, &br, rng.chance(3, 4))
+            };
+            let cuts = if zf.len() <= 4096 { "all".to_string() } else { fmt_cuts(&choose_cuts(rng, zf.len(), &files::bgzf_boundaries(&zf), 100)) };
+            w.push(&format!("{kind}z"), vec![hex(&zf), inflate_table(&zf), cuts]);
+        }
+    }
+    // --- modelled: fai text and the text inside a crai, every cut
+    for _ in 0..(6 * scale) {
+        let text = files::fai_file(rng);
+        w.push("fai", vec![hex(&text), "all".into()]);
+        let text = index::gunzip(&files::crai_file(rng));
+        w.push("crai", vec![hex(&text), "all".into()]);
     }
 
     // --- implementation-only: every format, files built in `run` from the seed
